@@ -4,12 +4,14 @@ same text, own worktree path, and the list of all earlier seeded changes for the
 import json, os, re, sys
 ROOT = os.path.dirname(os.path.dirname(os.path.abspath(__file__)))
 n = int(sys.argv[1])
-words = {2: "one", 3: "two", 4: "three", 5: "four", 6: "five", 7: "six", 8: "seven", 9: "eight", 10: "nine"}
+words = {2: "one", 3: "two", 4: "three", 5: "four", 6: "five", 7: "six", 8: "seven", 9: "eight", 10: "nine", 11: "ten", 12: "eleven"}
 hints = {
  5: "Aim for a defect in a part of the behaviour that is easy to overlook when writing a test generator: a query or secondary index rather than the primary record, an optional message field, a rarely used message type or keeper entry point used by another module, a code path only taken after a parameter change, migration or genesis import, a second denomination or account kind, or cleanup that should happen when an object is removed.",
  7: "Aim for a defect at an interaction: between two modules (one module's keeper or callback used by another: service with oracle/random, coinswap with farm, token with htlc or coinswap), between two messages of one transaction or two transactions of one block, between an operation and a query that should be read-only, between what an event or response reports and what the store holds, or between a rejected or partially applied operation and the next accepted one. Prefer functions and files that none of the earlier seeded changes touched, and inputs that are valid but that a test generator would only produce on purpose.",
  8: "Aim for a defect that lives at a limit or in a conversion: a height, counter, sequence, timestamp or amount near the end of its integer type (uint64/int64 casts, Int64()/Uint64() of a big integer, subtraction of unsigned values, int truncation of a length or index), a decimal that is truncated or rounded when it is converted or multiplied in a different order, an amount of 2^63 or more, a token scale of 0 or 18, a duration or time of zero or far in the future, an empty list or string where one element is the norm, the first or the last element of a range or page. The ordinary mid-range values that the existing tests use must keep working.",
  9: "Aim for a defect in how keys, prefixes, iteration or ordering are handled: an iterator whose range is one too short or too long, a prefix that also covers other ids, ids or names of different lengths that collide once concatenated, a pagination or limit that drops or repeats an element, a result built from a Go map or in store order where another order is promised, a reverse iteration, a loop that stops at the first match or modifies the store while iterating it, a secondary index that is written or deleted under a slightly different key than it is read. Only particular combinations of names, ids or counts should be affected.",
+ 10: "Aim for a defect in error handling or in who is checked: an error that is swallowed, overwritten or only logged; a return value that is ignored; state written (or coins moved, or an event emitted) before a later check fails inside the same keeper call; a cleanup step skipped on an early return; a `continue`/`break`/`return` confusion in a loop over several items; a response or event that reports something other than what was stored; an authorization or identity check applied to the wrong party (owner vs provider vs sender vs recipient vs consumer, module account vs user account) or only on one of two entry points to the same keeper function (message vs proposal vs another module's keeper call vs genesis). Ordinary single-actor flows must keep working.",
+ 11: "Aim for a defect that only a particular CONFIGURATION or HISTORY OF CONFIGURATION exposes: a parameter read once and cached or read at the wrong moment (at creation instead of at use, or the other way round), a parameter whose change should not affect objects created earlier (or should, and does not), a feature switch that is honoured on one path and not on another, a denom/base-denom/fee-denom parameter assumed to be the default, a limit of zero or 'unlimited' treated like a number, two parameters that must be read together. With default parameters and without parameter changes everything must behave as before.",
  6: "Aim for a defect whose effect is delayed or indirect: the faulty step leaves state that looks right to the operation that wrote it and goes wrong only in a later, different operation (possibly of another module or another account), after several blocks, or only when two objects share a name prefix, a height, an owner or a denomination.",
 }
 for i in range(1, 21):
